@@ -11,10 +11,14 @@ C05 line-protocol driver.   One case = one line of three fields:
          | l B                          legacy RequestMatcher answering B ∈ {0,1}
          | n S set^S                    not
   handler  p ID | r ID ST | w ID PATH | f ID ST | s routes E [routes]     (E = 1: error routes follow)
+         | x SRC                        the real `error` handler            SRC = 0 no status_code,
+         | y SRC                        the real `static_response` handler        1 "{http.error.status_code}",
+                                                                                  2 not a number, else the number
   errors   `-` (Server.Errors == nil) or a route list
   request  method,host,path,header      indices into the alphabets (2, 3, 6, 3; header 0 = absent)
 
-Answer:  `t=<id.path.err,…|-> s=<status|->`   (err = `n` or the status in the request context)
+Answer:  `t=<id.path.err,…|-> s=<status|->`   (err = `n` or the status in the request context;
+         `err/repl` when the `{http.error.status_code}` placeholder the handler saw differs from it)
 -/
 import CaddyModel.Util.Hex
 import CaddyModel.C05.Model
@@ -76,6 +80,23 @@ partial def pSet : P (List Matcher) := fun toks => do
   pMany pMatcher m toks
 end
 
+def srcOf : Nat → Src
+  | 0 => .empty
+  | 1 => .errCode
+  | 2 => .bad
+  | n => .lit n
+
+def srcNo : Src → Nat
+  | .empty => 0
+  | .errCode => 1
+  | .bad => 2
+  | .lit n => n
+
+/-- literal statuses the harness configures: `lo..599` -/
+def srcOk (lo : Nat) : Src → Bool
+  | .lit n => lo ≤ n && n ≤ 599
+  | _ => true
+
 mutual
 partial def pHandler : P Handler
   | "p" :: toks => do
@@ -93,6 +114,12 @@ partial def pHandler : P Handler
     let (id, toks) ← pNat toks
     let (st, toks) ← pNat toks
     pure (.fail id st, toks)
+  | "x" :: toks => do
+    let (s, toks) ← pNat toks
+    pure (.raise (srcOf s), toks)
+  | "y" :: toks => do
+    let (s, toks) ← pNat toks
+    pure (.answer (srcOf s), toks)
   | "s" :: toks => do
     let (rs, toks) ← pRoutes toks
     let (e, toks) ← pNat toks
@@ -173,6 +200,8 @@ def hValid : Handler → Bool
   | .respond _ st => 200 ≤ st && st ≤ 599
   | .rewrite _ p => p < 6
   | .fail _ st => errStatusOk st
+  | .raise src => srcOk 400 src
+  | .answer src => srcOk 200 src
   | .sub rs _ errs => rsValid rs && rsValid errs
 def rsValid : List Route → Bool
   | [] => true
@@ -183,7 +212,7 @@ end
 
 def parseReq (s : String) : Option Req :=
   match (s.splitOn ",").mapM natTok with
-  | some [m, h, p, x] => if m < 2 && h < 3 && p < 6 && x < 3 then some ⟨m, h, p, x, [], none⟩ else none
+  | some [m, h, p, x] => if m < 2 && h < 3 && p < 6 && x < 3 then some ⟨m, h, p, x, [], none, none⟩ else none
   | _ => none
 
 def showErr : Option Nat → String
@@ -192,7 +221,9 @@ def showErr : Option Nat → String
 
 def showTrace (t : Trace) : String :=
   if t.isEmpty then "-" else
-  ",".intercalate (t.map fun e => s!"{e.id}.{e.path}.{showErr e.err}")
+  ",".intercalate (t.map fun e =>
+    if e.repl == e.err then s!"{e.id}.{e.path}.{showErr e.err}"
+    else s!"{e.id}.{e.path}.{showErr e.err}/{showErr e.repl}")
 
 def showResult (x : Result) : String :=
   "t=" ++ showTrace x.trace ++ " s=" ++ (match x.status with | none => "-" | some s => toString s)
@@ -240,6 +271,8 @@ def encHandler : Handler → List String
   | .respond id st => ["r", toString id, toString st]
   | .rewrite id p => ["w", toString id, toString p]
   | .fail id st => ["f", toString id, toString st]
+  | .raise src => ["x", toString (srcNo src)]
+  | .answer src => ["y", toString (srcNo src)]
   | .sub rs hasErrs errs =>
     ["s", toString rs.length] ++ encRoutes rs ++
       (if hasErrs then ["1", toString errs.length] ++ encRoutes errs else ["0"])
@@ -262,6 +295,7 @@ def encCase (routes : List Route) (hasErrs : Bool) (errs : List Route) (r : Req)
 def witnessLines : List String :=
   [ encCase wDownstreamRoutes false [] wReq,
     encCase wRewriteRoutes true wRewriteErrs wReq,
+    encCase wStaleRoutes true wStaleErrs wReq,
     encCase (wOrderRoutes wSetA) false [] wReq,
     encCase (wOrderRoutes wSetB) false [] wReq ]
 
